@@ -16,6 +16,8 @@ import (
 	"go.sia.tech/coreutils/chain"
 	"go.sia.tech/coreutils/testutil"
 	"go.sia.tech/coreutils/wallet"
+	"go.uber.org/zap"
+	"go.uber.org/zap/zaptest/observer"
 	"pgregory.net/rapid"
 
 	"verif/kit"
@@ -51,7 +53,7 @@ type C07Config struct {
 // Op is one step of the machine. All fields are small integers that are
 // resolved against the state that exists when the step executes.
 type Op struct {
-	K string `json:"k"` // mine pay fund release submit redist split reorg restart expire sync
+	K string `json:"k"` // mine pay fund release submit redist split reorg restart expire sync topup rebroadcast
 	// N: count (blocks, outputs, depth, request index, split parts)
 	N int `json:"n,omitempty"`
 	// A: amount selector, F: permille / secondary selector
@@ -142,7 +144,7 @@ func genOp(t *rapid.T, cfg C07Config) Op {
 		k string
 		w int
 	}
-	kinds := []wk{{"mine", 4}, {"pay", 4}, {"fund", 11}, {"release", 2}, {"submit", 6}, {"redist", 2}, {"split", 2}, {"reorg", 1}, {"restart", 2}, {"sync", 2}, {"topup", 2}}
+	kinds := []wk{{"mine", 4}, {"pay", 4}, {"fund", 11}, {"release", 2}, {"submit", 6}, {"redist", 2}, {"split", 2}, {"reorg", 1}, {"restart", 2}, {"sync", 2}, {"topup", 2}, {"rebroadcast", 2}}
 	if cfg.short() {
 		kinds = append(kinds, wk{"expire", 2})
 	}
@@ -196,7 +198,7 @@ func genOp(t *rapid.T, cfg C07Config) Op {
 		op.U = rapid.IntRange(0, 3).Draw(t, "use-unconfirmed") == 0
 	case "submit":
 		op.N = rapid.IntRange(0, 7).Draw(t, "request")
-		op.B = rapid.IntRange(0, 2).Draw(t, "path")
+		op.B = rapid.SampledFrom([]int{0, 1, 2, 2, 2}).Draw(t, "path") // 2: the wallet's own broadcast helper
 	case "redist":
 		op.N = rapid.IntRange(1, 15).Draw(t, "outputs")
 		op.A = rapid.IntRange(0, 5).Draw(t, "amount-sel")
@@ -256,6 +258,49 @@ type resv struct {
 	req    int
 }
 
+// bset is a transaction set the wallet broadcast through its own helper.
+type bset struct {
+	basis     types.ChainIndex
+	txns      []types.V2Transaction
+	ephemeral bool // some input was an unconfirmed output
+}
+
+func newBset(basis types.ChainIndex, txns []types.V2Transaction) bset {
+	b := bset{basis: basis}
+	for _, t := range txns {
+		b.txns = append(b.txns, t.DeepCopy())
+		for _, in := range t.SiacoinInputs {
+			if in.Parent.StateElement.LeafIndex == types.UnassignedLeafIndex {
+				b.ephemeral = true
+			}
+		}
+	}
+	return b
+}
+
+// live reports whether every input of the set's transactions is unspent at the
+// manager's tip according to the reference store (so none of them is confirmed
+// and nothing conflicting is).
+func (b bset) live(chainU map[scID]types.SiacoinElement) bool {
+	for _, t := range b.txns {
+		for _, in := range t.SiacoinInputs {
+			if _, ok := chainU[in.Parent.ID]; !ok {
+				return false
+			}
+		}
+	}
+	return true
+}
+
+func (b bset) inPool(cm *chain.Manager) bool {
+	for _, t := range b.txns {
+		if _, ok := cm.V2PoolTransaction(t.ID()); !ok {
+			return false
+		}
+	}
+	return true
+}
+
 type request struct {
 	id       int
 	kind     string // v1 v2 redist
@@ -301,6 +346,10 @@ type world struct {
 	p     *wallet.SingleAddressWallet
 
 	other types.Address
+
+	// bcast: every set the wallet broadcast itself (BroadcastV2TransactionSet
+	// or SplitUTXO), with the basis its proofs really belong to
+	bcast []bset
 
 	dur   time.Duration
 	res   map[scID]resv
@@ -1913,6 +1962,12 @@ func (wd *world) opSubmit(op Op, step int) error {
 			if path == 2 {
 				wd.cs.Class("submit=via-wallet-broadcast")
 				subErr = wd.w.BroadcastV2TransactionSet(basis, set)
+				if subErr == nil {
+					wd.bcast = append(wd.bcast, newBset(basis, set))
+					if basis != wd.cm.Tip() {
+						wd.cs.Class("broadcast=basis-behind-the-chain-tip")
+					}
+				}
 			} else {
 				_, subErr = wd.cm.AddV2PoolTransactions(basis, set)
 			}
@@ -2174,6 +2229,7 @@ func (wd *world) opSplit(op Op, step int) error {
 		return fmt.Errorf("%s: %w", where, err)
 	}
 	poolBefore := len(wd.cm.V2PoolTransactions())
+	tipBefore := wd.cm.Tip()
 	t0 := time.Now()
 	txn, callErr := wd.w.SplitUTXO(n, minAmount)
 	t1 := time.Now()
@@ -2234,9 +2290,104 @@ func (wd *world) opSplit(op Op, step int) error {
 	if _, ok := pre.snap.E[id]; ok {
 		wd.cs.Class("split=of-unconfirmed-output")
 	}
+	// SplitUTXO broadcasts through the wallet's own helper; the returned
+	// transaction carries proofs for the manager's tip at the time of the call
+	wd.bcast = append(wd.bcast, newBset(tipBefore, []types.V2Transaction{txn}))
 	req := &request{id: len(wd.reqs), kind: "v2", v2: []types.V2Transaction{txn}, ids: []scID{id}, state: 2}
 	wd.reserve(req.ids, t0, t1, req.id)
 	wd.reqs = append(wd.reqs, req)
+	return nil
+}
+
+func (wd *world) describeStoredSets() string {
+	sets, _ := wd.ws.BroadcastedSets()
+	var out []string
+	for _, set := range sets {
+		id := types.TransactionID{}
+		if n := len(set.Transactions); n > 0 {
+			id = set.Transactions[n-1].ID()
+		}
+		out = append(out, fmt.Sprintf("{basis %v, %d txns, last %v}", set.Basis, len(set.Transactions), id))
+	}
+	return fmt.Sprint(out)
+}
+
+// opRebroadcast lets the wallet's re-broadcast loop run once: the wallet is
+// re-opened with a 1 ms debounce interval and a log observer (construction
+// triggers one round), the harness waits until every stored set was either
+// removed or logged as updated, then re-opens the wallet with the idle loop. A
+// set the wallet broadcast itself that was in the pool before (so it is valid
+// and unconfirmed at the tip) must still be stored and pooled afterwards.
+func (wd *world) opRebroadcast(step int) error {
+	before, _ := wd.ws.BroadcastedSets()
+	if len(before) == 0 {
+		wd.cs.Class("rebroadcast=nothing-stored")
+		return nil
+	}
+	type liveSet struct {
+		b  bset
+		bi int
+	}
+	var live []liveSet
+	for bi, b := range wd.bcast {
+		if bi2, ok := wd.cm.BestIndex(b.basis.Height); !b.ephemeral && b.inPool(wd.cm) && ok && bi2 == b.basis {
+			live = append(live, liveSet{b, bi})
+		}
+	}
+	wd.close()
+	core, logs := observer.New(zap.DebugLevel)
+	var err error
+	wd.w, err = wallet.NewSingleAddressWallet(wd.wkey, wd.cm, orderedStore{wd.ws, wd.cfg.Order}, wd.syncer,
+		append(wd.cfg.options(), wallet.WithDebounceInterval(time.Millisecond), wallet.WithLogger(zap.New(core)))...)
+	if err != nil {
+		return fmt.Errorf("INFRA: %w", err)
+	}
+	wd.p, wd.tw = nil, nil
+	deadline := time.Now().Add(3 * time.Second)
+	done := false
+	for !done && time.Now().Before(deadline) {
+		after, _ := wd.ws.BroadcastedSets()
+		handled := len(before) - len(after)
+		handled += logs.FilterMessage("updated transaction set for rebroadcast").Len()
+		if handled >= len(before) {
+			done = true
+		} else {
+			time.Sleep(time.Millisecond)
+		}
+	}
+	wd.w.Close()
+	wd.w = nil
+	if err := wd.openWallets(); err != nil {
+		return fmt.Errorf("INFRA: reopen wallets: %w", err)
+	}
+	wd.res = map[scID]resv{} // a new wallet object: reservations are gone
+	if !done {
+		wd.cs.Inconclusive("rebroadcast-round-not-observed-within-3s")
+		return nil
+	}
+	wd.cs.Class("rebroadcast=round-completed")
+	after, _ := wd.ws.BroadcastedSets()
+	for _, l := range live {
+		last := l.b.txns[len(l.b.txns)-1].ID()
+		stored := false
+		for _, set := range after {
+			for _, t := range set.Transactions {
+				if t.ID() == last {
+					stored = true
+				}
+			}
+		}
+		if !l.b.inPool(wd.cm) {
+			return fmt.Errorf("step %d rebroadcast: set %d (proofs at %v, tip %v) was in the pool before the re-broadcast round and is not afterwards", step, l.bi, l.b.basis, wd.cm.Tip())
+		}
+		if !stored {
+			return fmt.Errorf("step %d rebroadcast: set %d (%d transactions, broadcast by the wallet with basis %v, chain tip %v) is unconfirmed and valid (it is in the pool), but the re-broadcast round deleted it from the store (stored now: %s)", step, l.bi, len(l.b.txns), l.b.basis, wd.cm.Tip(), wd.describeStoredSets())
+		}
+		wd.cs.Class("rebroadcast=live-set-kept")
+		if l.b.basis != wd.cm.Tip() {
+			wd.cs.Class("rebroadcast=live-set-with-older-basis-kept")
+		}
+	}
 	return nil
 }
 
@@ -2263,33 +2414,33 @@ func (wd *world) opRestart(op Op) error {
 	if err := wd.openWallets(); err != nil {
 		return fmt.Errorf("INFRA: reopen wallets: %w", err)
 	}
-	// "a restart that re-loads broadcast sets into the pool": every stored set
-	// the pool is able to take must be in the pool once the wallet is constructed
-	if sets, _ := wd.ws.BroadcastedSets(); op.B%2 == 1 {
-		for si, set := range sets {
-			missing := false
-			for _, txn := range set.Transactions {
-				if _, ok := wd.cm.V2PoolTransaction(txn.ID()); !ok {
-					missing = true
+	// "a restart that re-loads broadcast sets into the pool", judged by the
+	// transactions themselves (not by what the store recorded about them): every
+	// set the wallet broadcast itself whose inputs are still unspent on the best
+	// chain must be in the new manager's pool once the wallet is constructed. If
+	// it is not, the harness offers it with the basis its proofs really have; if
+	// the pool takes it, the wallet should have brought it back.
+	if op.B%2 == 1 {
+		if err := wd.syncOthers(); err != nil {
+			return err
+		}
+		snap, err := wd.snapshot()
+		if err != nil {
+			return err
+		}
+		for bi, b := range wd.bcast {
+			switch {
+			case b.ephemeral:
+				wd.cs.Class("restart=node:broadcast-set-with-unconfirmed-parent (not judged)")
+			case !b.live(snap.chainU):
+				wd.cs.Class("restart=node:broadcast-set-confirmed-or-dead")
+			case b.inPool(wd.cm):
+				wd.cs.Class("restart=node:live-broadcast-set-back-in-pool")
+			default:
+				if known, err := wd.cm.AddV2PoolTransactions(b.basis, b.txns); err == nil && !known && b.inPool(wd.cm) {
+					return fmt.Errorf("restart: the wallet broadcast set %d (%d transactions, proofs at %v, chain tip now %v) through BroadcastV2TransactionSet, its inputs are unspent on the best chain and the pool accepts it, but it was not re-loaded into the pool by NewSingleAddressWallet (stored sets: %s)", bi, len(b.txns), b.basis, wd.cm.Tip(), wd.describeStoredSets())
 				}
-			}
-			if !missing {
-				wd.cs.Class("restart=node:broadcast-set-back-in-pool")
-				continue
-			}
-			if known, err := wd.cm.AddV2PoolTransactions(set.Basis, set.Transactions); err == nil && !known {
-				// the pool took it now, so it would have taken it from the wallet
-				still := false
-				for _, txn := range set.Transactions {
-					if _, ok := wd.cm.V2PoolTransaction(txn.ID()); ok {
-						still = true
-					}
-				}
-				if still {
-					return fmt.Errorf("restart: broadcast set %d (basis %v, %d transactions) was not re-loaded into the pool by NewSingleAddressWallet although the pool accepts it", si, set.Basis, len(set.Transactions))
-				}
-			} else {
-				wd.cs.Class("restart=node:broadcast-set-no-longer-valid")
+				wd.cs.Class("restart=node:live-broadcast-set-not-acceptable-to-the-pool")
 			}
 		}
 	}
@@ -2345,12 +2496,14 @@ func runC07(c C07Case, cs *kit.CaseStats) error {
 			if err == nil && op.Now && len(wd.reqs) == nreq+1 && !wd.reqs[nreq].noSubmit {
 				cs.Class("fund=submitted-at-once")
 				// the newest outstanding request is the last one in the list
-				err = wd.opSubmit(Op{K: "submit", N: len(wd.outstanding(true)) - 1, B: op.N}, i)
+				err = wd.opSubmit(Op{K: "submit", N: len(wd.outstanding(true)) - 1, B: 2 - op.N%2}, i)
 			}
 		case "release":
 			err = wd.opRelease(op)
 		case "topup":
 			err = wd.opTopUp(op, i)
+		case "rebroadcast":
+			err = wd.opRebroadcast(i)
 		case "submit":
 			err = wd.opSubmit(op, i)
 		case "redist":
